@@ -3,7 +3,8 @@
     LitTokProofs.v (token loops).  Every statement is for all magnitudes / all token lists. *)
 From Dashu Require Import Base.Prelude Base.Words Int.IoSpec Int.IoModel Float.TextIoSpec Float.PartsConstModel Ratio.RatArithModel
   Macro.LitModel Macro.LitGenProofs Macro.LitTokProofs
-  Macro.LitLexModel Macro.LitLexProofs Macro.LitRefModel Macro.LitRefProofs Macro.LitSrcProofs Macro.LitTemplateProofs.
+  Macro.LitLexModel Macro.LitLexProofs Macro.LitRefModel Macro.LitRefProofs Macro.LitSrcProofs Macro.LitTemplateProofs
+  Macro.LitLexComplete Macro.LitSrcComplete Macro.LitSrcRatio.
 From DashuGen Require Import LitTemplates.
 Open Scope Z_scope.
 
@@ -254,6 +255,126 @@ Theorem C20_lexer_fuel : forall s, lex s <> LexOutOfFuel.
 Proof. exact lex_total. Qed.
 Print Assumptions C20_lexer_fuel.
 
+(* ---- round 4: the lexer keeps maximal-munch tokens; tokens -> text -> the same tokens ---- *)
+
+(** a token never ends inside a run of letters, digits and `_` (`a3f`, `0x1F`, `123`, `1e5` are never split): identifiers
+    and integer literals ARE such a maximal run, a float literal contains the run it starts with *)
+Theorem C20_lexer_maximal_munch : forall s k n, leaf s = Some (k, n) ->
+  match k with
+  | TPunct => n = 1%nat
+  | TIdent => n = span is_ident_continue s
+  | TLit => (span is_ident_continue s <= n)%nat /\ (n = span is_ident_continue s \/ float_len s = Some n)
+  | TGroup => False
+  end.
+Proof. exact leaf_munch. Qed.
+Print Assumptions C20_lexer_maximal_munch.
+
+Theorem C20_int_literal_token_is_the_run : forall s n, int_len s = Some n -> n = span is_ident_continue s.
+Proof. exact int_len_span. Qed.
+Print Assumptions C20_int_literal_token_is_the_run.
+
+(** the only lexical error of the modelled alphabet: `0x` / `0o` / `0b` at the start of a token without a digit of that
+    radix behind it, or with a decimal digit that is none (`0x`, `0xg`, `0b2`, `0o8`) *)
+Theorem C20_lexer_errors_located : forall s, lex s = LexErr ->
+  exists pre rest, s = pre ++ rest /\ bad_radix_literal rest.
+Proof. exact lex_err_located. Qed.
+Print Assumptions C20_lexer_errors_located.
+
+Theorem C20_lexer_accepts_the_rest : forall s, modelled s = true ->
+  (forall pre rest, s = pre ++ rest -> ~ bad_radix_literal rest) -> exists ts, lex s = LexOk ts.
+Proof. exact lex_ok. Qed.
+Print Assumptions C20_lexer_accepts_the_rest.
+
+(** which words are one token in front of any separator: identifiers; numbers = a digit, then letters, digits, `_`
+    (`123`, `0x1F`, `1e5`, `1_000`, `12a`) unless a radix prefix has no digits *)
+Theorem C20_identifier_is_one_token : forall c w, is_ident_start c = true ->
+  Forall (fun x => is_ident_continue x = true) w -> tok_lexes (mk_tok TIdent (c :: w)).
+Proof. exact ident_word_lexes. Qed.
+Print Assumptions C20_identifier_is_one_token.
+
+Theorem C20_number_word_is_one_token : forall d w, is_digit d = true ->
+  Forall (fun x => is_ident_continue x = true) w -> int_digits (d :: w) <> None -> tok_lexes (mk_tok TLit (d :: w)).
+Proof. exact number_word_lexes. Qed.
+Print Assumptions C20_number_word_is_one_token.
+
+Theorem C20_decimal_word_is_one_token : forall d w, is_digit d = true -> Forall (fun x => is_ident_continue x = true) w ->
+  (d <> 48 \/ match w with x :: _ => x <> 120 /\ x <> 111 /\ x <> 98 | [] => True end) -> tok_lexes (mk_tok TLit (d :: w)).
+Proof. exact decimal_word_lexes. Qed.
+Print Assumptions C20_decimal_word_is_one_token.
+
+(** tokens -> text -> the same tokens: any sequence of such tokens, white space (or a separating punctuation character,
+    or the end) after every identifier and number, is lexed back into exactly these tokens *)
+Theorem C20_text_of_tokens_lexes_back : forall l tail, layout_ok l tail -> modelled (render l tail) = true ->
+  lex (render l tail) = LexOk (map snd l).
+Proof. exact lex_render. Qed.
+Print Assumptions C20_text_of_tokens_lexes_back.
+
+(** integer macros, the converse of C20_source_text_int: EVERY text laid out as  [+|-]? value [base N]?  is cut into these
+    tokens and the macro is the run-time parser: it compiles iff the parser accepts, with the same number *)
+Theorem C20_int_layout_is_well_formed : forall sg wsS ws0 vt bs tail,
+  ws_text wsS -> ws_text ws0 -> ws_text tail -> tok_lexes vt ->
+  match bs with Some (ws1, ws2, nt) => ws_text ws1 /\ ws1 <> [] /\ ws_text ws2 /\ ws2 <> [] /\ tok_lexes nt | None => True end ->
+  layout_ok (int_layout sg wsS ws0 vt bs) tail.
+Proof. exact int_layout_ok. Qed.
+Print Assumptions C20_int_layout_is_well_formed.
+
+Theorem C20_source_text_int_complete : forall w wbits signed_ static_ l tail neg v b, parser_word w -> std_word wbits ->
+  layout_ok l tail -> modelled (render l tail) = true -> int_tokens_spec signed_ (map snd l) = Some (neg, v, b) ->
+  lex (render l tail) = LexOk (map snd l) /\
+  macro_int_asis w wbits signed_ static_ (map snd l) = int_runtime w signed_ neg v b.
+Proof. exact src_int_complete. Qed.
+Print Assumptions C20_source_text_int_complete.
+
+Theorem C20_source_text_int_literal : forall w wbits signed_ static_ sg wsS ws0 vt bs tail, parser_word w -> std_word wbits ->
+  ws_text wsS -> ws_text ws0 -> ws_text tail -> tok_lexes vt -> is_value_tok vt = true -> (sg <> None -> signed_ = true) ->
+  match bs with
+  | Some (ws1, ws2, nt) => ws_text ws1 /\ ws1 <> [] /\ ws_text ws2 /\ ws2 <> [] /\ tok_lexes nt /\ is_lit_tok nt = true
+  | None => True end ->
+  let l := int_layout sg wsS ws0 vt bs in
+  modelled (render l tail) = true ->
+  lex (render l tail) = LexOk (map snd l) /\
+  macro_int_asis w wbits signed_ static_ (map snd l) =
+  int_runtime w signed_ (match sg with Some true => true | _ => false end) (ttext vt)
+              (match bs with Some (_, _, nt) => Some (ttext nt) | None => None end).
+Proof. exact src_int_literal_text. Qed.
+Print Assumptions C20_source_text_int_literal.
+
+(** float macros: every text whose radix prefixes are well-formed is cut into tokens and the macros read its text *)
+Theorem C20_source_text_float_complete : forall wbits static_ s, modelled s = true ->
+  (forall pre rest, s = pre ++ rest -> ~ bad_radix_literal rest) ->
+  exists ts, lex s = LexOk ts /\
+    macro_fbin_asis wbits static_ ts = fbin_of_text wbits static_ (strip_ws s) /\
+    macro_fdec_asis wbits static_ ts = fdec_of_text wbits static_ (strip_ws s).
+Proof. exact src_float_complete. Qed.
+Print Assumptions C20_source_text_float_complete.
+
+Theorem C20_source_text_decimal_float_complete : forall wbits static_ s, modelled s = true -> no_radix_letters s = true ->
+  exists ts, lex s = LexOk ts /\ macro_fdec_asis wbits static_ ts = fdec_of_text wbits static_ (strip_ws s).
+Proof. exact src_decimal_float_complete. Qed.
+Print Assumptions C20_source_text_decimal_float_complete.
+
+(** identifier and number tokens of a lexed text consist of letters, digits, `_`, `.`, `+`, `-` *)
+Theorem C20_value_token_characters : forall s ts, lex s = LexOk ts ->
+  Forall (fun t => is_value_tok t = true -> Forall (fun c => lit_char c = true) (ttext t)) ts.
+Proof. exact lex_value_tokens. Qed.
+Print Assumptions C20_value_token_characters.
+
+(** ... so the side condition of C20_ratio_macro_equals_runtime_parser holds for every text the lexer cuts *)
+Theorem C20_source_text_ratio_side_condition : forall s ts o, lex s = LexOk ts -> rat_tokens_spec ts = Some o -> rat_texts_ok o = true.
+Proof. exact src_rat_texts_ok. Qed.
+Print Assumptions C20_source_text_ratio_side_condition.
+
+(** rbig!/static_rbig! from the SOURCE TEXT: the components of the run-time ratio parser on  [-]num[/[-]den]  in that radix,
+    a compile error exactly when the tokens are no fraction literal or that parser refuses the text *)
+Theorem C20_source_text_ratio : forall w wbits static_ s ts, std_word wbits -> lex s = LexOk ts ->
+  macro_rat_asis w wbits static_ ts =
+  match rat_tokens_spec ts with
+  | Some o => match rat_runtime w o with Some (a, c) => Some (fst (fst (fst (fst o))), (a, c)) | None => None end
+  | None => None
+  end.
+Proof. exact src_rat_macro_runtime. Qed.
+Print Assumptions C20_source_text_ratio.
+
 (** from the SOURCE TEXT to the number, integer macros: if the text lexes and the macro compiles, the text without white
     space is [+|-]? value [base N]? and the number built is the run-time parser's for [-]? value in that radix *)
 Theorem C20_source_text_int : forall w wbits signed_ static_ s ts z, parser_word w -> std_word wbits ->
@@ -343,3 +464,35 @@ Theorem C20_templates_thresholds :
   bitlen_thresholds_quote_ubig = [] /\ bitlen_thresholds_quote_ibig = [].
 Proof. exact tpl_thresholds. Qed.
 Print Assumptions C20_templates_thresholds.
+
+(* ---- round 4: the tables behind the macro names, regenerated from macros/src/lib.rs, src/lib.rs and quote_words ---- *)
+From Dashu Require Import Macro.LitEntryProofs.
+From DashuGen Require Import LitEntryPoints.
+
+(** each of the twenty proc-macro names calls the front end the model is indexed by, with the flags its name promises *)
+Theorem C20_entry_points : forall k static_ embedded,
+  find_entry (macro_name k static_ embedded) = Some (expected_entry k static_ embedded).
+Proof. exact entry_points_table. Qed.
+Print Assumptions C20_entry_points.
+
+Theorem C20_entry_points_count :
+  List.length proc_macro_entries = 20%nat /\ NoDup (map (fun e => fst (fst (fst e))) proc_macro_entries).
+Proof. exact entry_points_count. Qed.
+Print Assumptions C20_entry_points_count.
+
+(** every `dashu::` wrapper hands over `[$crate]` and reaches the front end of the plain macro with embedded = true *)
+Theorem C20_dashu_wrappers_pass_crate : forall k static_,
+  exists target, find_wrapper (macro_name k static_ false) = Some (macro_name k static_ false, target, true) /\
+                 find_entry target = Some (expected_entry k static_ true).
+Proof. exact dashu_path_front_end. Qed.
+Print Assumptions C20_dashu_wrappers_pass_crate.
+
+(** the selector rows of quote_words are the model's selectors: element type uN, LEN and DATA of the same converter *)
+Theorem C20_static_selector_rows :
+  Forall row_consistent quote_words_selectors /\
+  quote_words_max_len = "(le_bytes.len() + 1) / 2" /\ quote_words_trait_len = "max_len" /\
+  forall bs, q_sel (quote_words bs) =
+    map (fun r => let '(d, l) := array_tokens (row_bytes r) bs (Nat.div (List.length bs + 1) 2) in (l, d)) quote_words_selectors /\
+    map (fun r => sel_index (Z.of_nat (let '(n, _, _, _, _, _) := r in n))) quote_words_selectors = [0; 1; 2]%nat.
+Proof. exact selectors_table. Qed.
+Print Assumptions C20_static_selector_rows.
